@@ -30,6 +30,7 @@ import (
 	"github.com/NVIDIA/KAI-scheduler/pkg/scheduler/api/node_info"
 	"github.com/NVIDIA/KAI-scheduler/pkg/scheduler/api/pod_info"
 	"github.com/NVIDIA/KAI-scheduler/pkg/scheduler/api/pod_status"
+	"github.com/NVIDIA/KAI-scheduler/pkg/scheduler/api/podgroup_info"
 	"github.com/NVIDIA/KAI-scheduler/pkg/scheduler/log"
 )
 
@@ -76,9 +77,11 @@ func (s *Statement) Evict(reclaimeeTask *pod_info.PodInfo, message string,
 		return fmt.Errorf("node doesn't exist in sesssion: <%s>", reclaimeeTask.NodeName)
 	}
 
-	if reclaimeeTask.Status == pod_status.Releasing {
+	if reclaimeeTask.Status == pod_status.Releasing || sessionStatus(job, reclaimeeTask) == pod_status.Releasing {
 		// Already evicted by an earlier operation of this cycle, or terminating anyway: evicting it again would
 		// record a second operation, release its resources a second time and send a second eviction.
+		// The scenario solvers hand out copies of the pods taken before earlier evictions, so the status of the
+		// session's own object is what counts.
 		log.InfraLogger.V(6).Infof("Task <%v/%v> is already releasing, not evicting it again",
 			reclaimeeTask.Namespace, reclaimeeTask.Name)
 		return nil
@@ -131,6 +134,16 @@ func (s *Statement) Evict(reclaimeeTask *pod_info.PodInfo, message string,
 		reclaimeeTask.Namespace, reclaimeeTask.Name, node.Name)
 
 	return nil
+}
+
+// sessionStatus returns the status of the session's own object for the task: the argument may be a copy.
+func sessionStatus(job *podgroup_info.PodGroupInfo, task *pod_info.PodInfo) pod_status.PodStatus {
+	for _, podSet := range job.PodSets {
+		if own, found := podSet.GetPodInfos()[task.UID]; found {
+			return own.Status
+		}
+	}
+	return task.Status
 }
 
 func (s *Statement) commitEvict(reclaimee *pod_info.PodInfo, evictOp evictOperation) error {
